@@ -138,6 +138,7 @@ def seglen(s):
     if k == 'elem': return ONE
     if k == 'sym': return ('len', s[1])
     if k == 'fill': return s[1]
+    if k == 'stored': return seqlen(s[1])
     raise ValueError(s)
 
 def seqlen(segs):
@@ -181,7 +182,7 @@ class State:
 
 class Frame:
     def __init__(self, d):
-        self.d = d; self.vars = {}; self.upvars = {}
+        self.d = d; self.vars = {}; self.upvars = {}; self.tsub = {}
 
 class Diverge(Exception): pass
 
@@ -197,6 +198,7 @@ class Interp:
         self.guards = []        # (cond term, span, 'assert'|'panic-arm')
         self.calls_seen = []    # inlined callee defs
         self.fresh = 0
+        self.active_loops = set()
         self.depth = 0
 
     # -------------------------------------------------------------- helpers
@@ -211,6 +213,25 @@ class Interp:
         return '%s#%d' % (base, self.fresh)
 
     def frame(self): return self.st.frames[-1]
+
+    def resolve_ty(self, t):
+        """substitute the type parameters bound by the enclosing inlined call"""
+        ts = self.frame().tsub if self.st.frames else {}
+        if not ts: return t
+        return re.sub(r'\b([A-Z]\w*)\b', lambda m: ts.get(m.group(1), m.group(1)) if m.group(1) in ts else m.group(1), t)
+
+    def size_of_ty(self, t):
+        t = norm_ty(self.resolve_ty(t))
+        b = int_bits(t)
+        if b: return b // 8
+        if t == 'bool': return 1
+        adt = self.f.adt(t)
+        if adt and 'size' in adt: return adt['size']
+        m = re.match(r'^\[(.*); (\d+)\]$', t)
+        if m:
+            s = self.size_of_ty(m.group(1))
+            return s * int(m.group(2)) if s is not None else None
+        return None
 
     # -------------------------------------------------------------- symbolic inputs
     def sym_value(self, ty, name):
@@ -293,7 +314,7 @@ class Interp:
     # -------------------------------------------------------------- layout bytes
     def as_bytes(self, v, ty, e=None):
         """layout bytes of a value -> list of segments, or Top"""
-        ty = norm_ty(strip_refs(ty))
+        ty = norm_ty(strip_refs(self.resolve_ty(ty)))
         if isinstance(v, RefV): v = v.place.get()
         if isinstance(v, Top): return v
         b = int_bits(ty)
@@ -991,8 +1012,19 @@ class Interp:
         if seq is None:
             self.top('iteration over %r' % (it,), e); return
         if isinstance(seq, SliceV):
-            self.top('iteration over sub-slice', e); return
+            r = self.slice_segs(seq)
+            if r is None:
+                self.top('iteration over unresolved sub-slice', e); return
+            seq = SeqV(seq.seq.elem, r)
         if seq.stores:
+            if seq.is_bytes() or int_bits(seq.elem):
+                # element-wise copy of a sequence that carries indexed stores: one 'stored' segment
+                w = 1 if seq.is_bytes() else int_bits(seq.elem) // 8
+                nm = 'stored<%s>' % (seq.name or '?')
+                el = A(nm, 0, (1 << (8 * w)) - 1)
+                seg = ('stored', tuple(seq.segs), tuple(seq.stores), w, seq.elem)
+                self.summarise(lambda: fn((lambda v: RefV(Cell(v))) (el) if by_ref else el), seqlen(seq.segs), nm, el, (seg,), e, stored=True)
+                return
             self.top('iteration over stored-to sequence', e); return
         wrap_ref = (lambda v: RefV(Cell(v))) if by_ref else (lambda v: v)
         if seq.is_bytes():
@@ -1002,7 +1034,8 @@ class Interp:
             if all(s[0] == 'int' and s[2] == 1 for s in segs) and len(segs) <= 4:
                 for s in segs: fn(wrap_ref(s[1]))
                 return
-            nm = self.fresh_name('byte')
+            import zlib
+            nm = 'byte<%08x>' % zlib.crc32(repr(segs).encode())
             el = A(nm, 0, 255)
             self.summarise(lambda: fn(wrap_ref(el)), seqlen(segs), nm, el, tuple(segs), e)
             return
@@ -1010,9 +1043,12 @@ class Interp:
             if s[0] == 'elem':
                 fn(wrap_ref(s[1]))
             elif s[0] == 'sym':
-                nm = self.fresh_name(show(s[1]) + '[i]')
+                nm = show(s[1]) + '[i]'
+                while nm in self.active_loops: nm += "'"
+                self.active_loops.add(nm)
                 el = self.sym_value(seq.elem, nm)
                 self.summarise(lambda: fn(wrap_ref(el)), ('len', s[1]), nm, el, None, e)
+                self.active_loops.discard(nm)
             elif s[0] == 'fill':
                 self.summarise(lambda: fn(wrap_ref(copy.deepcopy(s[2]))), s[1], None, s[2], None, e)
             else:
@@ -1072,7 +1108,7 @@ class Interp:
         if k == 'v' and isinstance(c, Cell): c.v = v
         else: c[k] = v
 
-    def summarise(self, run, count, varname, elem, source_segs, e):
+    def summarise(self, run, count, varname, elem, source_segs, e, stored=False):
         """one symbolic iteration standing for `count` iterations"""
         seqs, ints = self._containers()
         marks = [(s, len(s.segs), list(s.stores) if isinstance(s, SeqV) else None) for s in seqs]
@@ -1094,13 +1130,27 @@ class Interp:
             if new == a:
                 self._set(st, old); continue
             m = None
-            inner = new
-            if new[0] == 'wrap': m = new[2]; inner = new[1]
-            d = sub(inner, a)
+            def incr(x):
+                # per-iteration increment of an accumulator expression (joins of accumulators allowed)
+                nonlocal m
+                if x[0] == 'ite':
+                    p, q = incr(x[2]), incr(x[3])
+                    return None if p is None or q is None else ite(x[1], p, q)
+                inner = x
+                if x[0] == 'wrap':
+                    if m not in (None, x[2]): return None
+                    m = x[2]; inner = x[1]
+                dd = sub(inner, a)
+                return None if a in subterms(dd) else dd
+            d = incr(new)
+            if d is None:
+                self._set(st, self.top('loop-carried value is not an accumulator: %s' % show(new), e)); continue
             if a in subterms(d):
                 self._set(st, self.top('loop-carried value is not an accumulator: %s' % show(new), e)); continue
             # d is the per-iteration increment; sum it over the iteration
             total = self.sum_over(d, count, elem, source_segs)
+            if total is None:
+                total = self.sum_over_var(d, count, varname)
             if total is None:
                 self._set(st, self.top('cannot sum loop increment %s' % show(d), e)); continue
             r = add(old, total)
@@ -1112,7 +1162,9 @@ class Interp:
             new = s.segs[n:]
             if not new: continue
             del s.segs[n:]
-            if source_segs is not None and is_term(elem) and len(new) == 1 and new[0] == ('int', elem, 1):
+            if stored and len(new) == 1 and new[0][0] == 'int' and new[0][1] == elem and new[0][2] == source_segs[0][3]:
+                s.segs.extend(source_segs)
+            elif source_segs is not None and is_term(elem) and len(new) == 1 and new[0] == ('int', elem, 1):
                 s.segs.extend(source_segs)       # byte-wise copy of the iterated sequence
             elif source_segs is not None and is_term(elem) and isinstance(s, SeqV) and not s.is_bytes() and len(new) == 1 and new[0] == ('elem', elem):
                 s.segs.extend(source_segs)
@@ -1130,6 +1182,10 @@ class Interp:
         if set(dd.keys()) == {elem} and source_segs is not None:
             return add(scale(S_of(source_segs), dd[elem]), mul(count, C(c)))
         return None
+
+    def sum_over_var(self, d, count, varname):
+        if varname is None or not _mentions(d, varname): return mul(count, d)
+        return ('Ssum', count, varname, d)
 
     # -------------------------------------------------------------- calls
     def e_Call(self, e):
@@ -1167,7 +1223,7 @@ class Interp:
             return self.top('no model for ' + name, e)
         return r
 
-    def call_local(self, name, args, e=None, upvars=None):
+    def call_local(self, name, args, e=None, upvars=None, tsub=None):
         b = self.f.bodies[name]
         self.calls_seen.append(name)
         self.depth += 1
@@ -1175,6 +1231,13 @@ class Interp:
             self.depth -= 1
             return self.top('inlining depth', e)
         fr = Frame(name)
+        if e is not None and b.get('type_params') and e.get('generics'):
+            tys = [self.resolve_ty(g) for g in e['generics']]
+            if len(tys) >= len(b['type_params']):
+                fr.tsub = dict(zip(b['type_params'], tys[-len(b['type_params']):] if len(tys) > len(b['type_params']) else tys))
+        elif b['kind'] == 'Closure':
+            fr.tsub = dict(self.frame().tsub)
+        if tsub: fr.tsub = dict(tsub)
         params = b['params']
         if b['kind'] == 'Closure':
             params = params[1:]
@@ -1323,14 +1386,46 @@ def S_of(segs):
             if s[1][0] == 'c':
                 v = s[1][1]; r = add(r, C(sum((v >> (8 * i)) & 0xff for i in range(s[2]))))
             elif s[2] == 1: r = add(r, s[1])
-            else: r = add(r, ('S', ('le', s[1], s[2])))
+            else: r = add(r, ('S', ('LE', s[1], s[2])))
         elif k == 'raw':
             if s[2] == ZERO: continue
             r = add(r, ('S', ('raw', s[1])))
         elif k == 'opaque': r = add(r, ('S', ('emit', s[1])))
         elif k == 'cond': r = add(r, ite(s[1], S_of(s[2]), S_of(s[3])))
         elif k == 'rep':
-            if s[2] is None and all(x[0] == 'int' and x[1][0] == 'c' for x in s[3]): r = add(r, mul(s[1], S_of(s[3])))
-            else: r = add(r, ('S', s))
+            if s[2] is None or not _mentions(S_of(s[3]), s[2]): r = add(r, mul(s[1], S_of(s[3])))
+            else: r = add(r, ('Ssum', s[1], s[2], S_of(s[3])))
+        elif k == 'stored':
+            r = add(r, stored_sum(s))
         else: r = add(r, ('S', s))
     return r
+
+
+def stored_sum(s):
+    """byte-sum of a 'stored' segment: S(base) + sum over the stores of (new - old-at-that-time)"""
+    _, base, stores, w, elem = s
+    if w != 1: return ('S', s)
+    r = S_of(base)
+    hist = []
+    for (i, v) in stores:
+        if isinstance(i, tuple) and i and i[0] in ('range', 'within'): return ('S', s)
+        old = stored_get(base, hist, i)
+        if old is None: return ('S', s)
+        r = add(r, sub(v, old))
+        hist.append((i, v))
+    return r
+
+def stored_get(base, hist, idx):
+    for (i, v) in reversed(hist):
+        c = cmp('eq', i, idx)
+        if c == TRUE: return v
+        if c == FALSE: continue
+        older = stored_get(base, hist[:hist.index((i, v))], idx)
+        if older is None: return None
+        return ite(c, v, older)
+    if len(base) == 1:
+        b = base[0]
+        if b[0] == 'raw':
+            sym.SEL_RANGE[b[1]] = (0, 255); return ('sel', b[1], idx)
+        if b[0] == 'rep' and b[2] is None and len(b[3]) == 1 and b[3][0][0] == 'int' and b[3][0][2] == 1: return b[3][0][1]
+    return None
